@@ -56,6 +56,11 @@ func runC16(r *Run) {
 			break
 		}
 	}
+	for h := 0; h < n/5; h++ {
+		if !c16LeaderLostEarly(r, h) {
+			break
+		}
+	}
 }
 
 // c16FailedAttempt: a reconnect attempt that fails half-way. The client has two monitors. Its connection
